@@ -562,7 +562,7 @@ class Parser(object):
         equations defining them, and remove the initial_value attribute.
         """
         state_vars = set(self.model.get_state_variables())
-        for var in set(self.model.variables()):
+        for var in list(self.model.variables()):
             if var in state_vars:
                 assert var.initial_value is not None, 'State variable {} has no initial_value set'.format(var)
             elif var.initial_value is not None:
